@@ -674,7 +674,8 @@ class Engine:
         """Emit the current simulation state.
         Only variables with ``_emit=True`` are emitted.
         """
-        data = self.state.emit_data()
+        # (a hierarchy without any node has nothing to emit but the time)
+        data = self.state.emit_data() or {}
         data.update({
             'time': self.global_time})
         emit_config = {
